@@ -176,18 +176,29 @@ def run(ctx):
         "what the recovering function does with the panic (error for the call / close the connection / end the serve loop) "
         "and the error paths of malformed frames are hand-written in the model and validated by the correspondence run only",
     ]
-    gen = hv.regen_gen()
+    # coq/Gen is shared by every check and every VERIF_REPO: regenerate immediately before proving, serialise
+    # C11 runs among themselves, and afterwards make sure nobody else rewrote the table meanwhile (another
+    # check's regen_gen for another tree) -- otherwise the proof and the extracted model were about the wrong tree
+    hv.build_harness("c11")
+    with hv.Lock("c11-gen"):
+        for attempt in range(3):
+            gen = hv.regen_gen()
+            ctx.proof_broken = None
+            ctx.prove()
+            hv.build_modelrun("c11")
+            again = (hv.regen_gen().get("RecoverTable") or {})
+            if not again.get("rewritten"):
+                break
+            ctx.bump("table_rewritten_during_prove")
+        names = hv.run_model("c11", ["cells"])[0].split()
+        acc, model = model_verdicts(names)
     ctx.note("gotables", {k: v for k, v in (gen.get("RecoverTable") or {}).items() if k != "unresolved_list"})
     unresolved = (gen.get("RecoverTable") or {}).get("unresolved_list") or []
     if unresolved:
         ctx.note("gotables_unresolved", unresolved[:20])
-    ctx.prove()
-    hv.build_harness("c11")
-    hv.build_modelrun("c11")
-    names = hv.run_model("c11", ["cells"])[0].split()
-    acc, model = model_verdicts(names)
     ctx.note("model_table_accounted", {"table_accounted": acc[0] == "1", "goroutines_present": acc[1] == "1", "unresolved": int(acc[2])})
     ctx.note("cells", len(names))
+    run_corpus(ctx)
     cases = gen_cases(ctx, names)
     byid, err = run_cases(cases)
     # anything lost to a crashed executor (not child) is re-run once, serially
@@ -267,8 +278,46 @@ def run(ctx):
     elif unexplained:
         ctx.note("disagreeing_cases_without_property_failure",
                  [(d[0]["cell"], d[0]["variant"], d[1]["verdict"], d[2]) for d in unexplained[:20]])
+    # a broken obligation with no failing input beyond the cells the model itself refutes
+    if ctx.proof_broken is not None and ctx.violations and all((v[2].get("model") or {}).get("escaped") for v in ctx.violations):
+        ob = ctx.proof_broken
+        ctx.report("broken-obligation:%s" % ob.get("lemma"),
+                   "proof obligation %s (%s:%s) no longer checks over the regenerated table and no fault cell outside the "
+                   "refuted ones fails: %s" % (ob.get("lemma"), ob.get("file"), ob.get("line"), (ob.get("message") or "")[:300]),
+                   {"failing_input": False, "obligation": ob,
+                    "model_table_accounted": ctx.cov.get("model_table_accounted"),
+                    "gotables_unresolved": unresolved[:10]})
     if ctx.tier == "thorough":
         legacy_probe(ctx, names)
+
+
+def run_corpus(ctx):
+    """corpus first: the replays of the repaired findings must now show a contained fault"""
+    import glob
+    files = sorted(glob.glob(os.path.join(hv.V, "corpus", "C11-*.json")))
+    cases = []
+    for i, f in enumerate(files):
+        r = json.load(open(f))
+        c = dict(r["case"])
+        c["id"] = 800000 + i
+        cases.append((f, r, c))
+    if not cases:
+        return
+    byid, _ = run_cases([c for _, _, c in cases], nproc=8)
+    passed = 0
+    for f, r, c in cases:
+        o = byid.get(c["id"])
+        why = property_oracle(c, o) if o is not None else ("no-observation", "the corpus case produced no observation")
+        if o is not None and observed_class(o) == "Env":
+            again, _ = run_cases([c], nproc=1)
+            o = again.get(c["id"], o)
+            why = property_oracle(c, o)
+        if why is None:
+            passed += 1
+        else:
+            ctx.report(key_of(c, why[0]), "corpus case %s (repaired by %s) fails again: %s" % (os.path.basename(f), r.get("fixed_by"), why[1]),
+                       {"case": c, "observation": o, "failing_input": True, "corpus": os.path.basename(f)})
+    ctx.note("corpus", {"cases": len(cases), "passed": passed})
 
 
 def witness_name(c):
